@@ -364,6 +364,18 @@ class _Run(object):
             registrar.done = False
             tm.register_callback(oneshot, uid=u0)
             tm.register_callback(registrar)
+
+            # ... and callbacks which share their name with the recording ones (closures of one
+            # factory, methods of two watcher objects): taking one off must not take the other off
+            def twin_m(task, state):
+                tm.unregister_callback(cb=twin_m)
+
+            def twin_t(task, state):
+                tm.unregister_callback(cb=twin_t, uid=u0)
+            twin_m.__name__ = twin_m.__qualname__ = wild.__name__
+            twin_t.__name__ = twin_t.__qualname__ = per_task.__name__
+            tm.register_callback(twin_m)
+            tm.register_callback(twin_t, uid=u0)
             res.label('callbacks_changing_the_callback_tables')
 
         if service:
